@@ -470,6 +470,7 @@ func histories(isValue bool, n int) [][]wop {
 
 func main() {
 	h := hx.New("C04")
+	registerConcurrent(h)
 	for _, isValue := range []bool{true, false} {
 		isValue := isValue
 		name := "collection"
